@@ -108,6 +108,7 @@ def on_bincount(call):
 
 
 def install():
+    probe.enable_argflip({"HTM.bincount": lambda a, k: not any(x in k for x in ("htmid2", "htmrev2", "scale")), "HTM.lookup_id": None}, every=3)
     probe.enable_recall("C13.recall", every=5)
     probe.instrument("esutil.htm.htm:HTM.lookup_id", [])
     probe.instrument("esutil.htm.htm:HTM.intersect", [])
